@@ -85,6 +85,15 @@ func (o *objectValidator) Applies(source interface{}, kind reflect.Kind) bool {
 
 func (o *objectValidator) isProperties() bool {
 	p := o.splitPath
+	if len(p) > 2 && p[len(p)-1] == jsonProperties && p[len(p)-2] == jsonProperties {
+		// a run of "properties" segments alternates between the keyword (a map of schemas) and a
+		// member of that map which happens to be named "properties" (a schema)
+		run := 0
+		for i := len(p) - 1; i >= 0 && p[i] == jsonProperties; i-- {
+			run++
+		}
+		return run%2 == 1
+	}
 	return len(p) > 1 && p[len(p)-1] == jsonProperties && p[len(p)-2] != jsonProperties
 }
 
